@@ -939,7 +939,7 @@ def build_fn(ctx, unit, fs):
         # ARM SLICING: one arm `PAT => { BLOCK }` of the inner `match ch` of one state arm of a big dispatcher becomes a
         # synthetic method with the dispatcher's signature. What this drops: the dispatch itself (which arm runs for which
         # state / character) is not verified; fall-through code after the inner match (TAIL) is appended.
-        arm = locate_arm(sf, it, fs.opts["arm_state"].replace("~", " "), fs.opts["arm_pat"].replace("~", " "), fs.path)
+        arm = locate_arm(sf, it, fs.opts["arm_state"].replace("~", " "), fs.opts["arm_pat"].replace("~", " ").replace("%7E", "~"), fs.path)
         real_it = it
         it = arm["item"]
         fn_label = fs.opts.get("as") or ("arm_" + re.sub(r"\W+", "_", fs.opts["arm_state"] + "_" + fs.opts["arm_pat"]))
